@@ -24,79 +24,8 @@ def run(ctx):
     stream_fill_rule(ctx, r1)
 
     # ---- R2 --------------------------------------------------------------------------------
-    r2 = ctx.rule("C20.R2", "BlockEncoder::new seeks a Stream source to Start(0) on every path to Ok; SenderSession::get_next "
-                            "builds a new encoder for every transfer it starts", "MPT+WWF")
-    g = prog.fn(BE + "::new")
-    ctx.analysed(g.path)
-    gflow = Flow(g.body)
-    x = X(g.body)
-    seeks = []
-    for s in call_sites(g, lambda p, c: c.get("name") == "seek" and (c.get("trait") or "").endswith("io::Seek")):
-        arg = show(s.expr[2][1])
-        if re.search(r"SeekFrom::Start\{0: 0\}", arg):
-            # the Result must be propagated: the Continue edge of `?`
-            seeks.append(s.bb)
-    def contra(fact):
-        (a, tr) = fact
-        if a[0] == "variant" and "source" in show(a[1]) and a[2] == "Buffer" and tr:
-            return False
-        if a[0] == "variant" and "source" in show(a[1]) and a[2] == "Stream" and not tr:
-            return False
-        return None
-    gflow.assume(contra)
-    oks = ret_assign_blocks(g.body, lambda e: is_variant(e, "Ok"))
-    if not oks:
-        raise model.AnchorMissing("BlockEncoder::new has no Ok return")
-    for bb, e in oks:
-        ok, w = gflow.must_pass(0, [bb], lambda n: n[0] == "b" and n[1] in seeks)
-        if ok and seeks:
-            r2.ok("BlockEncoder::new rewinds streams", "seek(Start(0)) on every Ok path for Stream sources", loc(g.sp))
-        else:
-            r2.violation("BlockEncoder::new rewinds streams", "a Stream-backed encoder can be built without rewinding the stream: the "
-                                                              "second transfer starts where the first ended", loc(g.sp))
-    # seek error propagated
-    for sb in seeks:
-        t = g.body.blocks[sb].term
-        nxt = g.body.blocks[t.target].term if t.target is not None else None
-        e = x.call_expr(t.target, nxt, x.depth) if nxt is not None and nxt.k == "call" else None
-        if e is not None and e[1].endswith("::branch"):
-            r2.ok("BlockEncoder::new seek result checked", "?", loc(t.sp))
-        else:
-            r2.violation("BlockEncoder::new seek result checked", "the result of seek(Start(0)) is not propagated", loc(t.sp))
-    SS = "sender::sendersession::SenderSession"
-    gn = prog.fn(SS + "::get_next")
-    ctx.analysed(gn.path)
-    sl = Slicer(gn.body)
-    for a in field_accesses(prog, SS, "encoder"):
-        caller = a["func"].root().path
-        if a["kind"] not in ("assign", "construct"):
-            continue
-        v = a["value"]
-        key = "%s encoder = %s" % (caller.split("::")[-1], show(v, 40))
-        if is_variant(v, "None") or (a["kind"] == "construct" and is_variant(v, "None")):
-            r2.ok(key, "reset", loc(a["sp"]))
-        elif caller == SS + "::get_next" and any(z == "call:sender::blockencoder::BlockEncoder::new" for z in sl.sources(v)):
-            r2.ok(key, "fresh encoder from BlockEncoder::new", loc(a["sp"]))
-        else:
-            r2.violation(key, "encoder set from something other than a fresh BlockEncoder::new", loc(a["sp"]))
-    # get_next resets the encoder first
-    def straight_from_entry(bb):
-        cur = 0
-        for _ in range(6):
-            if cur == bb:
-                return True
-            t = gn.body.blocks[cur].term
-            if t.k in ("drop", "goto") and t.target is not None:
-                cur = t.target
-            else:
-                return False
-        return False
-    first_none = any(a["func"].path == gn.path and a["kind"] == "assign" and is_variant(a["value"], "None") and straight_from_entry(a["bb"])
-                     for a in field_accesses(prog, SS, "encoder", funcs=[gn]))
-    if first_none:
-        r2.ok("get_next drops the previous encoder first", "", loc(gn.sp))
-    else:
-        r2.violation("get_next drops the previous encoder first", "a previous encoder can survive into the next transfer", loc(gn.sp))
+    r2 = ctx.rule("C20.R2", R2_TEXT, "MPT+WWF")
+    rewind_rule(ctx, r2)
     r2.floor(5, "rewind facts")
 
     # ---- R3 siblings ------------------------------------------------------------------------
@@ -182,6 +111,85 @@ def run(ctx):
 
 R1_TEXT = ("in read_block_stream every Read::read that fills the block buffer sits in a loop that continues until the buffer is full or a "
            "read returns 0, and retries on ErrorKind::Interrupted (read_exact / read_to_end / take are accepted)")
+
+
+R2_TEXT = ("BlockEncoder::new seeks a Stream source to Start(0) on every path to Ok; SenderSession::get_next "
+           "builds a new encoder for every transfer it starts")
+
+
+def rewind_rule(ctx, r2):
+    prog = ctx.prog
+    g = prog.fn(BE + "::new")
+    ctx.analysed(g.path)
+    gflow = Flow(g.body)
+    x = X(g.body)
+    seeks = []
+    for s in call_sites(g, lambda p, c: c.get("name") == "seek" and (c.get("trait") or "").endswith("io::Seek")):
+        arg = show(s.expr[2][1])
+        if re.search(r"SeekFrom::Start\{0: 0\}", arg):
+            # the Result must be propagated: the Continue edge of `?`
+            seeks.append(s.bb)
+    def contra(fact):
+        (a, tr) = fact
+        if a[0] == "variant" and "source" in show(a[1]) and a[2] == "Buffer" and tr:
+            return False
+        if a[0] == "variant" and "source" in show(a[1]) and a[2] == "Stream" and not tr:
+            return False
+        return None
+    gflow.assume(contra)
+    oks = ret_assign_blocks(g.body, lambda e: is_variant(e, "Ok"))
+    if not oks:
+        raise model.AnchorMissing("BlockEncoder::new has no Ok return")
+    for bb, e in oks:
+        ok, w = gflow.must_pass(0, [bb], lambda n: n[0] == "b" and n[1] in seeks)
+        if ok and seeks:
+            r2.ok("BlockEncoder::new rewinds streams", "seek(Start(0)) on every Ok path for Stream sources", loc(g.sp))
+        else:
+            r2.violation("BlockEncoder::new rewinds streams", "a Stream-backed encoder can be built without rewinding the stream: the "
+                                                              "second transfer starts where the first ended", loc(g.sp))
+    # seek error propagated
+    for sb in seeks:
+        t = g.body.blocks[sb].term
+        nxt = g.body.blocks[t.target].term if t.target is not None else None
+        e = x.call_expr(t.target, nxt, x.depth) if nxt is not None and nxt.k == "call" else None
+        if e is not None and e[1].endswith("::branch"):
+            r2.ok("BlockEncoder::new seek result checked", "?", loc(t.sp))
+        else:
+            r2.violation("BlockEncoder::new seek result checked", "the result of seek(Start(0)) is not propagated", loc(t.sp))
+    SS = "sender::sendersession::SenderSession"
+    gn = prog.fn(SS + "::get_next")
+    ctx.analysed(gn.path)
+    sl = Slicer(gn.body)
+    for a in field_accesses(prog, SS, "encoder"):
+        caller = a["func"].root().path
+        if a["kind"] not in ("assign", "construct"):
+            continue
+        v = a["value"]
+        key = "%s encoder = %s" % (caller.split("::")[-1], show(v, 40))
+        if is_variant(v, "None") or (a["kind"] == "construct" and is_variant(v, "None")):
+            r2.ok(key, "reset", loc(a["sp"]))
+        elif caller == SS + "::get_next" and any(z == "call:sender::blockencoder::BlockEncoder::new" for z in sl.sources(v)):
+            r2.ok(key, "fresh encoder from BlockEncoder::new", loc(a["sp"]))
+        else:
+            r2.violation(key, "encoder set from something other than a fresh BlockEncoder::new", loc(a["sp"]))
+    # get_next resets the encoder first
+    def straight_from_entry(bb):
+        cur = 0
+        for _ in range(6):
+            if cur == bb:
+                return True
+            t = gn.body.blocks[cur].term
+            if t.k in ("drop", "goto") and t.target is not None:
+                cur = t.target
+            else:
+                return False
+        return False
+    first_none = any(a["func"].path == gn.path and a["kind"] == "assign" and is_variant(a["value"], "None") and straight_from_entry(a["bb"])
+                     for a in field_accesses(prog, SS, "encoder", funcs=[gn]))
+    if first_none:
+        r2.ok("get_next drops the previous encoder first", "", loc(gn.sp))
+    else:
+        r2.violation("get_next drops the previous encoder first", "a previous encoder can survive into the next transfer", loc(gn.sp))
 
 
 def stream_fill_rule(ctx, r1):
